@@ -1,0 +1,46 @@
+// Copyright © 2022-2026 Obol Labs Inc. Licensed under the terms of a Business Source License 1.1
+
+//go:build verif
+
+// Verification contracts (comments only; read by /verif/govc, never compiled into charon).
+// The BLS algebra lives in herumi's C++ library behind cgo; what is under contract here is charon's
+// plumbing: which ids, shares and signatures are handed to the library, and under which map keys.
+package tbls
+
+//@ pure strconv.Itoa
+
+//@ func (Herumi) ThresholdSplit
+//@ props C08
+//@ requires threshold < 4611686018427387904 && total < 4611686018427387904
+//@ callreq blsID.SetDecString: a1 == strconv.Itoa(i) && 1 <= i && i <= int(total)
+//@ callreq sk.Set: a1 == poly && len(poly) == int(threshold) && poly[0] == p && ncalls(blsID.SetDecString) == ncalls(sk.Set) + 1
+//@ ensures r1 == nil ==> threshold > 1
+//@ ensures r1 == nil ==> ncalls(sk.Set) == int(total) && ncalls(blsID.SetDecString) == int(total) && ncalls(blsID.SetHexString) == 0
+//@ ensures r1 == nil ==> forallk(k, r0, 1 <= k && k <= int(total))
+//@ ensures r1 == nil ==> forall(k, 1, int(total)+1, has(r0, k))
+//@ canary r1 != nil
+//@ loop 1 invariant 1 <= i && i <= int(threshold) && len(poly) == int(threshold) && poly[0] == p
+//@ loop 2 invariant 1 <= i && (i <= int(total)+1 || int(total) < 1) && ncalls(sk.Set) == i-1 && ncalls(blsID.SetDecString) == i-1 && ncalls(blsID.SetHexString) == 0
+//@ loop 2 invariant forallk(k, ret, 1 <= k && k < i) && forall(k, 1, i, has(ret, k))
+//@ loop 2 invariant len(poly) == int(threshold) && poly[0] == p
+
+//@ func (Herumi) RecoverSecret
+//@ props C08
+//@ callreq id.SetDecString: a1 == strconv.Itoa(idx)
+//@ callreq pk.Recover: a1 == rawKeys && a2 == rawIDs && len(rawKeys) == len(shares) && len(rawIDs) == len(shares)
+//@ ensures r1 == nil ==> ncalls(id.SetDecString) == len(shares) && ncalls(kpk.Deserialize) == len(shares) && ncalls(pk.Recover) == 1 && ncalls(id.SetHexString) == 0
+//@ loop 1 invariant len(rawKeys) == $i && len(rawIDs) == $i && ncalls(id.SetDecString) == $i && ncalls(kpk.Deserialize) == $i && ncalls(pk.Recover) == 0 && ncalls(id.SetHexString) == 0
+
+//@ func (Herumi) RecoverPubkey
+//@ props C08
+//@ callreq id.SetDecString: a1 == strconv.Itoa(idx)
+//@ callreq pk.Recover: a1 == rawKeys && a2 == rawIDs && len(rawKeys) == len(shares) && len(rawIDs) == len(shares)
+//@ ensures r1 == nil ==> ncalls(id.SetDecString) == len(shares) && ncalls(kpk.Deserialize) == len(shares) && ncalls(pk.Recover) == 1 && ncalls(id.SetHexString) == 0
+//@ loop 1 invariant len(rawKeys) == $i && len(rawIDs) == $i && ncalls(id.SetDecString) == $i && ncalls(kpk.Deserialize) == $i && ncalls(pk.Recover) == 0 && ncalls(id.SetHexString) == 0
+
+//@ func (Herumi) ThresholdAggregate
+//@ props C08 C09
+//@ callreq id.SetDecString: a1 == strconv.Itoa(idx)
+//@ callreq complete.Recover: a1 == rawSigns && a2 == rawIDs && len(rawSigns) == len(partialSignaturesByIndex) && len(rawIDs) == len(partialSignaturesByIndex)
+//@ ensures r1 == nil ==> ncalls(id.SetDecString) == len(partialSignaturesByIndex) && ncalls(signature.Deserialize) == len(partialSignaturesByIndex) && ncalls(complete.Recover) == 1 && ncalls(id.SetHexString) == 0
+//@ loop 1 invariant len(rawSigns) == $i && len(rawIDs) == $i && ncalls(id.SetDecString) == $i && ncalls(signature.Deserialize) == $i && ncalls(complete.Recover) == 0 && ncalls(id.SetHexString) == 0
